@@ -9,6 +9,7 @@ from typing import Iterable
 
 from liquid2.builtin import LambdaExpression
 from liquid2.builtin import PositionalArgument
+from liquid2.builtin.expressions import _eq
 from liquid2.builtin.expressions import is_truthy
 from liquid2.exceptions import LiquidTypeError
 from liquid2.filter import sequence_arg
@@ -84,7 +85,7 @@ class FindFilter:
                     return item
 
         elif value is not None and not is_undefined(value):
-            return next((itm for itm in left if _getitem(itm, key) == value), None)
+            return next((itm for itm in left if _eq(_getitem(itm, key), value)), None)
 
         else:
             return next(
@@ -116,7 +117,7 @@ class FindIndexFilter(FindFilter):
 
         elif value is not None and not is_undefined(value):
             return next(
-                (i for i, itm in enumerate(left) if _getitem(itm, key) == value),
+                (i for i, itm in enumerate(left) if _eq(_getitem(itm, key), value)),
                 None,
             )
 
@@ -153,7 +154,7 @@ class HasFilter(FindFilter):
                     return True
 
         elif value is not None and not is_undefined(value):
-            return any(_getitem(itm, key) == value for itm in left)
+            return any(_eq(_getitem(itm, key), value) for itm in left)
 
         else:
             return any(is_truthy(_getitem(itm, key)) for itm in left)
